@@ -118,6 +118,15 @@ func implLzr(crc bool, stream []byte, sizes []int) (out string, data []byte, clo
 		}
 	}
 	closeErr = rd.Close()
+	// a second Close (a deferred Close after an explicit, checked one) must not take the verdict back
+	second := rd.Close()
+	if closeErr != nil && second == nil {
+		lzCloseTwiceForgets = true
+	}
+	if closeErr == nil && second != nil {
+		// ... nor turn a success into a failure: the verdict of this run is then the second one
+		closeErr = second
+	}
 	s := "new=nil reads=" + strings.Join(reads, ";")
 	if stuck {
 		s += " stuck"
@@ -373,6 +382,9 @@ func lzInputs(c *Ctx, maxLen int, count int) []lzInput {
 // the verdict on trailing garbage DOES depend on the fragmentation; C08 therefore keeps the one-block source the
 // model assumes (4096-byte fills), and only C06/C07 (valid streams) switch the fragmenting sources on.
 var lzFragmentSources = false
+
+// lzCloseTwiceForgets is set by implLzr when a second Close returned nil after the first had reported an error.
+var lzCloseTwiceForgets = false
 
 func lzSource(stream []byte) io.Reader {
 	if !lzFragmentSources {
